@@ -3,7 +3,7 @@ from harness.core import Ctx, replay, MachineryError
 
 FAMILIES_COLD = ["same", "shared_var", "setof", "shared_cond", "independent"]
 FAMILIES_WARM = ["same", "shared_var", "setof", "shared_cond", "exists", "independent"]
-RULES = ["rule_refine", "rule_alt", "rule_next"]
+RULES = ["rule_refine", "rule_alt", "rule_next", "rule_grow"]
 
 
 def expected_alone(h, alone):
@@ -48,7 +48,7 @@ def main():
                 "14-step schedules over 4 elements by seeded simulation; each schedule carries the prediction of the "
                 "as-implemented protocol. Every schedule is stepped with next() on real iterators in six query families (same "
                 "query twice, two queries sharing a variable, set_of, a shared condition node, an exists query, a shared attribute node used once for its value and once as a condition, "
-                "independent variables) and, for sequential schedules, three rule-query families; each returned value is compared with what "
+                "independent variables, a variable whose domain is empty after the type filter (IterSched with N = 0)) and, for sequential schedules, four rule-query families (one of them extended by a refinement after a first evaluation); each returned value is compared with what "
                 "the evaluation returns when run alone. Non-trivial = a schedule in which two evaluations are live at once or one "
                 "is restarted; distinct by (family, warm, schedule).")
     n_mc = ctx.run_tlc("IterSched", "IterSched_mc.cfg", expect="ok")
@@ -78,6 +78,14 @@ def main():
         cases.append({"family": "shared_mapping", "n": 4, "warm": False, "h": h})
     for k, h in enumerate(warm[2::step * 3]):
         cases.append({"family": "shared_mapping_root", "n": 4, "warm": True, "h": h})
+    # N = 0: a domain that is empty after the type filter; every evaluation (also a repeated one, also of the other query) stops at once
+    empty = [j["h"] for j in ctx.run_tlc("IterSched", "IterSched_gen_empty.cfg", expect="ok").json_lines() if isinstance(j, dict)]
+    if len(empty) < 100:
+        raise MachineryError("IterSched_gen_empty produced too few schedules")
+    ctx.cov["schedules"]["empty_domain_6_steps"] = len(empty)
+    for w in (False, True):
+        for h in empty[::1 if thorough else 2]:
+            cases.append({"family": "empty", "n": 0, "warm": w, "h": h})
     seq = [h for h in cold if sequential(h)]
     for k, fam in enumerate(RULES):
         for h in seq[k % step::step]:
